@@ -293,13 +293,22 @@ static void all_code_points() {
 
 // ------------------------------------------------------------------ replay
 // vec_utf8 replay <in.ndjson> <out.ndjson>: re-executes the inputs of recorded lines on the current tree
-static bool find_array(const std::string& l, const char* key, bytes& out) {
-    std::string k = std::string("\"") + key + "\":[";
+static size_t find_value(const std::string& l, const char* key) {   // position of the value of "key", npos if absent
+    std::string k = std::string("\"") + key + "\"";
     size_t p = l.find(k);
-    if (p == std::string::npos) return false;
+    if (p == std::string::npos) return p;
     p += k.size();
+    while (p < l.size() && (l[p] == ' ' || l[p] == ':')) ++p;
+    return p;
+}
+static bool find_array(const std::string& l, const char* key, bytes& out) {
+    size_t p = find_value(l, key);
+    if (p == std::string::npos || p >= l.size() || l[p] != '[') return false;
+    ++p;
     out.clear();
     while (p < l.size() && l[p] != ']') {
+        while (p < l.size() && l[p] == ' ') ++p;
+        if (p < l.size() && l[p] == ']') break;
         out += char(strtoul(l.c_str() + p, nullptr, 10));
         while (p < l.size() && l[p] != ',' && l[p] != ']') ++p;
         if (p < l.size() && l[p] == ',') ++p;
@@ -307,10 +316,9 @@ static bool find_array(const std::string& l, const char* key, bytes& out) {
     return true;
 }
 static bool find_num(const std::string& l, const char* key, long& out) {
-    std::string k = std::string("\"") + key + "\":";
-    size_t p = l.find(k);
+    size_t p = find_value(l, key);
     if (p == std::string::npos) return false;
-    out = strtol(l.c_str() + p + k.size(), nullptr, 10);
+    out = strtol(l.c_str() + p, nullptr, 10);
     return true;
 }
 static int replay_file(const char* in, const char* outp) {
@@ -323,7 +331,7 @@ static int replay_file(const char* in, const char* outp) {
     for (;;) {
         l.clear();
         while ((c = fgetc(fi)) != EOF && c != '\n') l += char(c);
-        if (!l.empty() && l.find("\"g\":\"const\"") == std::string::npos) {
+        if (!l.empty() && l.find("\"const\"") == std::string::npos) {
             bytes b, pre, post; long rep = 0, n = 0, id = 0;
             if (find_num(l, "id", id)) g_id = id;
             if (find_array(l, "pre", pre) && find_array(l, "post", post) && find_num(l, "rep", rep) && find_num(l, "n", n))
